@@ -137,6 +137,12 @@ class PathFacts:
                 return ("PRED", False)
         if isinstance(expr, ast.Constant):
             return ("CONST", False)
+        # an answer looked up in a container kept on the object (a table of earlier answers)
+        if (isinstance(expr, ast.Call) and isinstance(expr.func, ast.Attribute) and expr.func.attr in ("get", "pop", "setdefault") and expr.args
+                and (access_path(expr.func.value) or "").count(".") >= 1) or \
+                (isinstance(expr, ast.Subscript) and not isinstance(expr.slice, ast.Slice) and (access_path(expr.value) or "").count(".") >= 1
+                 and not (access_path(expr.value) or "").endswith((".vector", ".costs", ".costs_signed"))):
+            return ("TABLE", False)
         # any other expression mentioning a tagged name is a modified value
         tags = {env[n.id][0] for n in ast.walk(expr) if isinstance(n, ast.Name) and n.id in env and env[n.id][0] in ("OBJ", "PRED")}
         for c in ast.walk(expr):
@@ -282,6 +288,10 @@ def check_predict(ctx, repo):
             train_i = [i for i, k, _c in f.events if k == "train"]
             if train_i and adds and train_i[0] < adds[0][0]:
                 bad("R4", p, "the model is retrained before the new sample is added to the training set", "train-when")
+        elif f.ret_tag == "TABLE":
+            bad("R2", p, "the request is answered from a table of earlier answers kept on the surrogate, without asking the predict hook for THIS request: a prediction is used only "
+                "when the hook returns a value, and a hook that declines now (it may decide per request) is bypassed by the stored answer; the request is then counted as a prediction "
+                "and no true evaluation happens", "prediction-guarded")
         else:
             bad("R3", p, "the request returns %s: neither the objective value nor a guarded prediction" % (f.ret_tag,), "returns-something")
     ctx.extra["decision_table_predict"] = table
